@@ -162,25 +162,31 @@ def r2(F, R):
     why = f"upper bound {ubs}"
     R.check(ok, "serial-batch-at-most-one", s, f"serial drain count = {why}",
             "the Serial drain is not limited to at most one entry (count is not the constant <=1 nor a bool conversion)")
-    # Serial is tried before Concurrent: or_else(receiver ∋ Serial drain, closure ∋ Concurrent drain)
-    ors = [(s2, t2) for s2, t2 in get.calls(lambda t2: callee_is(t2, r"Option::<.*>::or_else$"))]
-    pref = False
-    for s2, t2 in ors:
-        r_sl = A.slice_back(get, [t2["args"][0]])
-        r_cls = {rv["def"] for _, rv in r_sl.aggs if rv.get("agg") == "closure"}
-        a_sl = A.slice_back(get, [t2["args"][1]])
-        a_cls = {rv["def"] for _, rv in a_sl.aggs if rv.get("agg") == "closure"}
-        ser_in_recv = any(ser[0][0] in F.nested(F.body(c)) for c in r_cls) or ser[0][0] is get and any(s == ser[0][1] for s, _ in r_sl.calls)
-        con_in_arg = any(con[0][0] in F.nested(F.body(c)) for c in a_cls)
-        con_in_recv = any(con[0][0] in F.nested(F.body(c)) for c in r_cls)
-        if ser_in_recv and con_in_arg and not con_in_recv:
-            pref = True
-    if not ors:
-        # sequential form: serial invocation dominates the concurrent one in the same body
-        if ser[0][0] is con[0][0]:
-            pref = ser[0][0].dominates(ser[0][1], con[0][1])
-    R.check(pref, "serial-before-concurrent", ser[0][1], "GET = serial.or_else(concurrent)",
-            "GET does not try the Serial queue before (and instead of) the Concurrent queue")
+    # Serial is tried before (and instead of) Concurrent — on GET's path table (spelling-independent; deep.py / sched.py)
+    from . import sched as S
+    GT = S.GetTable(F)
+    pref, seen_both = True, False
+    why = ""
+    for p in GT.paths:
+        ds = GT.drains(p)
+        sers = [d for d in ds if d[1] == "Serial"]
+        cons = [d for d in ds if d[1] == "Concurrent"]
+        if any(d[1] == "?" for d in ds):
+            pref, why = False, "a drain invocation whose queue kind is not a constant"
+        if cons:
+            # a concurrent drain happens only after the serial queue was consulted and gave nothing
+            ser_lookup = [i for i, e in enumerate(p.effects) if e[0] == "call" and re.search(r"HashMap(::<.*>)?::get(_mut)?$", e[1]) and
+                          any(S.D.is_variant(x, "runner::basic::ScenarioType", "Serial") for a in e[2] for x in S.D.subterms(a))]
+            if sers:
+                seen_both = True
+                if not (sers[0][0] < cons[0][0] and GT.outcome_of(p, sers[0][3]) == "None"):
+                    pref, why = False, "the Concurrent queue is drained although the Serial drain handed out a scenario (or before it)"
+            elif not (ser_lookup and ser_lookup[0] < cons[0][0]):
+                pref, why = False, "the Concurrent queue is drained without consulting the Serial queue first"
+        if len(sers) > 1 or len(cons) > 1:
+            pref, why = False, "a queue is drained twice in one GET"
+    R.check(pref and seen_both, "serial-before-concurrent", ser[0][1], "GET = serial.or_else(concurrent)",
+            "GET does not try the Serial queue before (and instead of) the Concurrent queue" + (": " + why if why else ""))
     # the concurrent drain gets the caller's limit
     b, s, t, ty, cops = con[0]
     okc = False
